@@ -13,6 +13,7 @@ import (
 	"errors"
 	"fmt"
 	"io"
+	"net"
 	"net/http"
 	"os"
 	"os/exec"
@@ -44,7 +45,10 @@ type Probe struct {
 	Pass       string `json:"pass,omitempty"`
 	ExpectEcho bool   `json:"expectEcho,omitempty"`
 	ExpectRST  bool   `json:"expectRST,omitempty"`
-	Path       string `json:"path,omitempty"` // api
+	Silent     bool   `json:"silent,omitempty"`   // connect (and finish the proxy handshake) but send no payload at first
+	Greet      bool   `json:"greet,omitempty"`    // the target speaks first; the payload follows its greeting
+	SilentMs   int    `json:"silentMs,omitempty"` // without a greeting: how long to stay silent before the payload
+	Path       string `json:"path,omitempty"`     // api
 }
 
 // Plan is a configuration plus the smoke script that exercises it.
@@ -76,6 +80,7 @@ type Result struct {
 }
 
 func substitute(s, dir string, echo, dns int, ports []int) string {
+	s = strings.ReplaceAll(s, "@@GREET@@", strconv.Itoa(greetPort))
 	s = strings.ReplaceAll(s, "@@DIR@@", dir)
 	s = strings.ReplaceAll(s, "@@ECHO@@", strconv.Itoa(echo))
 	s = strings.ReplaceAll(s, "@@DNS@@", strconv.Itoa(dns))
@@ -93,6 +98,10 @@ func writeFiles(dir string, files map[string]string) error {
 	}
 	return nil
 }
+
+// greetPort is the port of the target that speaks first (set by the process that owns a netEnv;
+// 19997 where nothing is bound, i.e. for load-only use in the parent).
+var greetPort = 19997
 
 // loadConfig mirrors cmd/shadowsocks-go: jsoncfg.Load (unknown fields refused) then Config.Manager.
 func loadConfig(path string, logger *zap.Logger) (*service.Config, *service.Manager, error) {
@@ -123,6 +132,7 @@ func runPlan(p *Plan) (res Result) {
 	}
 	defer env.close()
 	env.installResolver()
+	greetPort = env.greetTCP.Addr().(*net.TCPAddr).Port
 
 	for attempt := 1; attempt <= 4; attempt++ {
 		res = Result{Attempts: attempt}
@@ -354,6 +364,11 @@ func evaluate(p *Plan, r *Result, tolerateRejectEOF bool) (violation string, exe
 	for i, pr := range r.Probes {
 		pp := p.Probes[i]
 		labels = append(labels, "probe:"+pp.Kind)
+		if pp.Silent && pp.Greet {
+			labels = append(labels, "probe-silent:target-speaks-first")
+		} else if pp.Silent {
+			labels = append(labels, "probe-silent:late-payload")
+		}
 		if pr.NTSeen {
 			labels = append(labels, "udp-nontarget-reply-delivered")
 		}
